@@ -466,7 +466,7 @@ def known_findings():
         if kind not in out:
             continue
         toks = rest.split()
-        d = {'text': rest.strip()}
+        d = {'text': ' '.join(t for t in toks if not t.startswith('property='))}
         for t in toks:
             if '=' in t:
                 k, v = t.split('=', 1)
